@@ -102,6 +102,7 @@ def check(ctx):
         ctx.broken("correspondence:quad-gradient", {"case": meta[i], "coq": cases[i][:1500]})
     oracle(ctx)
     tuple_object_probe(ctx)
+    limit_shapes_probe(ctx)
 
 
 def oracle(ctx):
@@ -359,6 +360,44 @@ def tuple_object_probe(ctx):
                 ctx.fail("oracle", "quadgrad:tuple-integrand:%s:%s" % (kind, nm), {"integrand": "(cos(a x + b c), sin(a x) b)", "function_kind": kind},
                          x_.tolist(), y_.tolist())
                 break
+
+
+def limit_shapes_probe(ctx):
+    """every accepted combination of 1-element limits - Python number, 0-dim tensor, tensor of shape (1,) - that the forward pass
+    accepts is differentiable, first and second order, w.r.t. the tensor limits and a 0-dim parameter (finding F42: the backward
+    integration probed the integrand at the lower limit, whose shape may differ from the shape of the forward result, which follows
+    the upper limit)"""
+    from xitorch.integrate import quad
+    mk = {"number": lambda v: v, "0-dim": lambda v: torch.tensor(v, dtype=DT, requires_grad=True),
+          "(1,)": lambda v: torch.tensor([v], dtype=DT, requires_grad=True)}
+    for kl in mk:
+        for ku in mk:
+            xl, xu = mk[kl](0.5), mk[ku](2.0)
+            a = torch.tensor(1.5, dtype=DT, requires_grad=True)
+            info = {"xl": kl, "xu": ku, "integrand": "a x^3, a 0-dim", "n": 5}
+            try:
+                y = quad(lambda x, c: c * x * x * x, xl, xu, params=(a,), n=5)
+            except Exception:
+                ctx.stat("limit_shapes_forward_rejects")      # not an accepted form
+                continue
+            ctx.count(("limit-shapes", kl, ku), nontrivial=kl != ku)
+            lims = [t for t in (xl, xu) if isinstance(t, torch.Tensor)]
+            try:
+                with warnings.catch_warnings():
+                    warnings.simplefilter("ignore")
+                    g = torch.autograd.grad(y.sum(), (a, *lims), create_graph=True)
+                    g2 = torch.autograd.grad(g[0].sum(), (a, *lims), allow_unused=True)
+            except Exception as e:
+                ctx.fail("oracle", "quadgrad:limit-shapes:exception", info, repr(e)[:300], "gradients (the forward call is accepted)")
+                continue
+            want = [(2.0 ** 4 - 0.5 ** 4) / 4] + ([-1.5 * 0.5 ** 3] if kl != "number" else []) + ([1.5 * 2.0 ** 3] if ku != "number" else [])
+            want2 = [0.0] + ([-0.5 ** 3] if kl != "number" else []) + ([2.0 ** 3] if ku != "number" else [])
+            got = [float(t.detach().sum()) for t in g]
+            got2 = [0.0 if t is None else float(t.detach().sum()) for t in g2]
+            shapes_ok = all(t.shape == p.shape for t, p in zip(g, (a, *lims)))
+            if not shapes_ok or any(abs(u - w) > 1e-10 for u, w in zip(got + got2, want + want2)):
+                ctx.fail("oracle", "quadgrad:limit-shapes", info, {"first": got, "second": got2, "shapes": [list(t.shape) for t in g]},
+                         {"first": want, "second": want2})
 
 
 def search(ctx):
